@@ -43,7 +43,7 @@ MIN = dict({b: False for b in BOOLS}, types="disable")
 
 def inputs(tier, s):
     out = []
-    n = 30000 if tier == "quick" else 400000
+    n = 30000 if tier == "quick" else common.tscale(400000)
     valid = []
     for i in range(300 if tier == "quick" else 3000):
         r = random.Random("%d/c05v/%d" % (s, i))
